@@ -109,6 +109,11 @@ func (c *Config) getCacheTTL(resp *TokenInfo) time.Duration {
 		return 0
 	}
 
+	// a token whose remaining lifetime does not exceed the leeway is not cached at all
+	if !resp.Expiry.IsZero() && time.Until(resp.Expiry)-timeLeeway*time.Second <= 0 {
+		return 0
+	}
+
 	// we cache by default using the settings in the token endpoint response (if available)
 	// or if ttl has been configured. Latter overwrites the settings in the token endpoint response
 	// if it is shorter than the ttl in the token endpoint response
